@@ -4,7 +4,6 @@ import (
 	"encoding/json"
 	"fmt"
 	"math/rand/v2"
-	"os"
 	"path/filepath"
 	"sort"
 	"strings"
@@ -531,10 +530,6 @@ func bbServer(c *vf.Ctx, bin string, w int) {
 		}
 	}
 	ask("after-flush", queries)
-	if d, err := time.ParseDuration(os.Getenv("C20_BB_HOLD")); err == nil && d > 0 {
-		fmt.Printf("black-box server %s held for %s (debugging aid)\n", s.URL(), d)
-		time.Sleep(d)
-	}
 	// restart: primary index and bloom filters are now read back from the files
 	s.Kill()
 	if err := s.Start(); err != nil {
